@@ -311,20 +311,53 @@ func stripIface(v ssa.Value) ssa.Value {
 	}
 }
 
-// singleStore returns the only value stored into a local cell, or nil.
+// singleStore returns the only value ever stored into a local cell, or nil:
+// one store of the whole cell, and otherwise only reads (of the cell or of
+// its fields and elements).
 func singleStore(a *ssa.Alloc) ssa.Value {
 	var st ssa.Value
 	n := 0
+	var readOnly func(v ssa.Value) bool
+	readOnly = func(v ssa.Value) bool {
+		for _, ref := range *v.Referrers() {
+			switch x := ref.(type) {
+			case *ssa.UnOp:
+				if x.Op != token.MUL {
+					return false
+				}
+			case *ssa.DebugRef:
+			case *ssa.FieldAddr:
+				if !readOnly(x) {
+					return false
+				}
+			case *ssa.IndexAddr:
+				if x.X != v || !readOnly(x) {
+					return false
+				}
+			default:
+				return false
+			}
+		}
+		return true
+	}
 	for _, ref := range *a.Referrers() {
 		switch x := ref.(type) {
 		case *ssa.Store:
-			if x.Addr == a {
+			if x.Addr == ssa.Value(a) {
 				st = x.Val
 				n++
 			} else {
 				return nil // the address itself is stored
 			}
 		case *ssa.UnOp, *ssa.DebugRef:
+		case *ssa.FieldAddr:
+			if !readOnly(x) {
+				return nil
+			}
+		case *ssa.IndexAddr:
+			if !readOnly(x) {
+				return nil
+			}
 		default:
 			return nil
 		}
@@ -457,7 +490,12 @@ func (s *Sym) key1(v ssa.Value, ctx *symCtx) string {
 		return types.TypeString(x.Type(), func(*types.Package) string { return "" }) + "(" + s.Key(x.X, ctx) + ")"
 	case *ssa.FieldAddr:
 		st := x.X.Type().Underlying().(*types.Pointer).Elem().Underlying().(*types.Struct)
-		return "&" + s.Key(x.X, ctx) + "." + st.Field(x.Field).Name()
+		base := s.Key(x.X, ctx)
+		if strings.HasPrefix(base, "&") {
+			// a field of a local copy reads like a field of the value copied
+			base = base[1:]
+		}
+		return "&" + base + "." + st.Field(x.Field).Name()
 	case *ssa.Field:
 		st := x.X.Type().Underlying().(*types.Struct)
 		return s.Key(x.X, ctx) + "." + st.Field(x.Field).Name()
@@ -490,7 +528,7 @@ func (s *Sym) key1(v ssa.Value, ctx *symCtx) string {
 		return s.Key(x.X, ctx) + "[" + p(x.Low) + ":" + p(x.High) + "]"
 	case *ssa.Alloc:
 		if st := singleStore(x); st != nil {
-			return "&{" + s.Key(st, ctx) + "}"
+			return "&" + s.Key(st, ctx)
 		}
 		return "cell:" + x.Comment + "@" + x.Parent().Name()
 	case *ssa.UnOp:
@@ -708,7 +746,13 @@ func (s *Sym) cond(v ssa.Value, ctx *symCtx, d int) *pcF {
 		return s.cmp(x, ctx, d)
 	case *ssa.Call:
 		if s.Expand && ctx.depth() < 3 {
-			if f := s.expandCall(x, ctx, d); f != nil {
+			if f := s.expandCall(x, 0, 1, ctx, d); f != nil {
+				return f
+			}
+		}
+	case *ssa.Extract:
+		if c, ok := x.Tuple.(*ssa.Call); ok && s.Expand && ctx.depth() < 3 {
+			if f := s.expandCall(c, x.Index, c.Call.Signature().Results().Len(), ctx, d); f != nil {
 				return f
 			}
 		}
@@ -721,12 +765,12 @@ func (s *Sym) opaque(v ssa.Value, ctx *symCtx) *pcF {
 }
 
 // expandCall: a static in-module callee without loops that returns one bool.
-func (s *Sym) expandCall(c *ssa.Call, ctx *symCtx, d int) *pcF {
+func (s *Sym) expandCall(c *ssa.Call, idx, nres int, ctx *symCtx, d int) *pcF {
 	fn := c.Call.StaticCallee()
 	if fn == nil || fn.Blocks == nil || fn.Pkg == nil || !strings.HasPrefix(fn.Pkg.Pkg.Path(), modPath) {
 		return nil
 	}
-	if fn.Signature.Results().Len() != 1 || len(ssaLoops(fn)) > 0 || len(fn.Blocks) > 24 {
+	if fn.Signature.Results().Len() != nres || len(ssaLoops(fn)) > 0 || len(fn.Blocks) > 24 {
 		return nil
 	}
 	for p := ctx; p != nil; p = p.parent {
@@ -737,9 +781,13 @@ func (s *Sym) expandCall(c *ssa.Call, ctx *symCtx, d int) *pcF {
 	// callees that write nothing themselves; what they call stays an atom
 	for _, b := range fn.Blocks {
 		for _, in := range b.Instrs {
-			switch in.(type) {
-			case *ssa.Go, *ssa.Defer, *ssa.Store, *ssa.MapUpdate, *ssa.Send, *ssa.Panic:
+			switch y := in.(type) {
+			case *ssa.Go, *ssa.Defer, *ssa.MapUpdate, *ssa.Send, *ssa.Panic:
 				return nil
+			case *ssa.Store:
+				if !storesIntoFresh(y.Addr) {
+					return nil
+				}
 			}
 		}
 	}
@@ -750,7 +798,7 @@ func (s *Sym) expandCall(c *ssa.Call, ctx *symCtx, d int) *pcF {
 		if !ok {
 			continue
 		}
-		out = pcOrF(out, pcAndF(s.PathCond(fn.Blocks[0], b, nctx), s.cond(ret.Results[0], nctx, d+1)))
+		out = pcOrF(out, pcAndF(s.PathCond(fn.Blocks[0], b, nctx), s.cond(ret.Results[idx], nctx, d+1)))
 	}
 	return out
 }
@@ -1092,4 +1140,336 @@ func pcGated(f *pcF, classify func(*pcAtom) string) string {
 		}
 	}
 	return ""
+}
+
+// rootParams: the parameters of root that v is computed from (data flow
+// through instructions, local cells, and the results of static in-module
+// callees, whose arguments are all taken to flow into every result).
+func rootParams(v ssa.Value, root *ssa.Function) map[int]bool {
+	out := map[int]bool{}
+	seen := map[ssa.Value]bool{}
+	var walk func(v ssa.Value)
+	walk = func(v ssa.Value) {
+		if v == nil || seen[v] {
+			return
+		}
+		seen[v] = true
+		switch x := v.(type) {
+		case *ssa.Parameter:
+			if x.Parent() == root {
+				for i, p := range root.Params {
+					if p == x {
+						out[i] = true
+					}
+				}
+			}
+			return
+		case *ssa.Alloc:
+			for _, ref := range *x.Referrers() {
+				switch y := ref.(type) {
+				case *ssa.Store:
+					if y.Addr == ssa.Value(x) {
+						walk(y.Val)
+					}
+				case *ssa.IndexAddr, *ssa.FieldAddr:
+					for _, r2 := range *y.(ssa.Value).Referrers() {
+						if st, ok := r2.(*ssa.Store); ok && st.Addr == y.(ssa.Value) {
+							walk(st.Val)
+						}
+					}
+				}
+			}
+			return
+		case *ssa.Const, *ssa.Global, *ssa.Function, *ssa.FreeVar, *ssa.Builtin:
+			return
+		}
+		if in, ok := v.(ssa.Instruction); ok {
+			for _, op := range in.Operands(nil) {
+				if *op != nil {
+					walk(*op)
+				}
+			}
+		}
+	}
+	walk(v)
+	return out
+}
+
+// storesIntoFresh: the address is (an element or field of) memory allocated
+// by this very function.
+func storesIntoFresh(addr ssa.Value) bool {
+	for {
+		switch x := addr.(type) {
+		case *ssa.Alloc:
+			return true
+		case *ssa.IndexAddr:
+			addr = x.X
+		case *ssa.FieldAddr:
+			addr = x.X
+		default:
+			return false
+		}
+	}
+}
+
+// pcEvalUnder evaluates f in a model given atom by atom; ok=false when the
+// model does not decide some atom f depends on.
+func pcEvalUnder(f *pcF, val func(*pcAtom) (bool, bool)) (res bool, ok bool, undecided string) {
+	env := map[string]bool{}
+	for _, a := range f.atoms() {
+		v, known := val(a)
+		if !known {
+			return false, false, a.key
+		}
+		env[a.key] = v
+	}
+	return f.eval(env, map[*pcF]bool{}), true, ""
+}
+
+type retRow struct {
+	cond *pcF
+	val  ssa.Value
+	pos  token.Pos
+}
+
+// retTable lists the exits of a loop-free function with the condition of
+// each and the idx-th result returned there.
+func (s *Sym) retTable(fn *ssa.Function, idx int) []retRow {
+	var out []retRow
+	for _, b := range fn.Blocks {
+		ret, ok := b.Instrs[len(b.Instrs)-1].(*ssa.Return)
+		if !ok || len(ret.Results) <= idx {
+			continue
+		}
+		v := ret.Results[idx]
+		if phi, ok := v.(*ssa.Phi); ok && phi.Block() == b {
+			// one return statement fed by several assignments: split
+			for i, e := range phi.Edges {
+				pred := b.Preds[i]
+				out = append(out, retRow{pcAndF(s.PathCond(fn.Blocks[0], pred, nil), s.edgeCond(pred, b, nil)), e, ret.Pos()})
+			}
+			continue
+		}
+		out = append(out, retRow{s.PathCond(fn.Blocks[0], b, nil), v, ret.Pos()})
+	}
+	return out
+}
+
+// floatClass models for a float subject compared with zero / tested by math.Is*.
+type floatClass int
+
+const (
+	fNeg floatClass = iota
+	fZero
+	fPos
+	fNaN
+	fPosInf
+	fNegInf
+)
+
+// floatAtom evaluates an atom about subject (given by isSubj) in class c.
+func floatAtom(a *pcAtom, isSubj func(ssa.Value) bool, c floatClass) (bool, bool) {
+	sign := map[floatClass]int{fNeg: -1, fZero: 0, fPos: 1, fPosInf: 1, fNegInf: -1}
+	isZero := func(v ssa.Value) bool {
+		k, ok := v.(*ssa.Const)
+		if !ok {
+			return false
+		}
+		if k.Value == nil {
+			return true
+		}
+		f, _ := constant.Float64Val(constant.ToFloat(k.Value))
+		return f == 0
+	}
+	if a.op == token.EQL || a.op == token.LSS {
+		var subjLeft bool
+		switch {
+		case a.x != nil && isSubj(a.x) && isZero(a.y):
+			subjLeft = true
+		case a.y != nil && isSubj(a.y) && isZero(a.x):
+			subjLeft = false
+		default:
+			return false, false
+		}
+		if c == fNaN {
+			return false, true
+		}
+		if a.op == token.EQL {
+			return sign[c] == 0, true
+		}
+		if subjLeft {
+			return sign[c] < 0, true
+		}
+		return sign[c] > 0, true
+	}
+	if bo, ok := a.v.(*ssa.BinOp); ok && (bo.Op == token.LEQ || bo.Op == token.GEQ) {
+		var s int
+		switch {
+		case isSubj(bo.X) && isZero(bo.Y):
+			s = 1
+		case isSubj(bo.Y) && isZero(bo.X):
+			s = -1
+		default:
+			return false, false
+		}
+		if c == fNaN {
+			return false, true
+		}
+		if bo.Op == token.GEQ {
+			s = -s
+		}
+		// s=1: subj <= 0 ; s=-1: subj >= 0
+		if s == 1 {
+			return sign[c] <= 0, true
+		}
+		return sign[c] >= 0, true
+	}
+	if call, ok := a.v.(*ssa.Call); ok && call.Call.StaticCallee() != nil && len(call.Call.Args) >= 1 && isSubj(call.Call.Args[0]) {
+		switch call.Call.StaticCallee().String() {
+		case "math.IsNaN":
+			return c == fNaN, true
+		case "math.IsInf":
+			s, ok := intConstOf(call.Call.Args[1])
+			if !ok {
+				return false, false
+			}
+			switch {
+			case s > 0:
+				return c == fPosInf, true
+			case s < 0:
+				return c == fNegInf, true
+			}
+			return c == fPosInf || c == fNegInf, true
+		case "math.Signbit":
+			if c == fZero || c == fNaN {
+				return false, false
+			}
+			return sign[c] < 0, true
+		}
+	}
+	return false, false
+}
+
+// ---------------------------------------------------------------------------
+// Owners: who-may-call tables name functions.  A helper that was split off a
+// listed function and is used by nobody else does what the listed function
+// did before; it is attributed to that function, so that extracting a helper
+// does not make a reviewed call site look like a new one.
+
+type ownerIndex struct {
+	refs   map[*ssa.Function]map[*ssa.Function]bool // function -> functions that mention it
+	iface  map[string]bool                            // method names of the module's interfaces
+	owners map[*ssa.Function]*ssa.Function
+}
+
+func (w *World) owners() *ownerIndex {
+	if w.ownerIdx != nil {
+		return w.ownerIdx
+	}
+	oi := &ownerIndex{refs: map[*ssa.Function]map[*ssa.Function]bool{}, iface: map[string]bool{}, owners: map[*ssa.Function]*ssa.Function{}}
+	prog := w.SSA()
+	for _, p := range prog.AllPackages() {
+		if p.Pkg == nil || !strings.HasPrefix(p.Pkg.Path(), modPath) {
+			continue
+		}
+		for _, m := range p.Members {
+			if t, ok := m.(*ssa.Type); ok {
+				if it, ok := t.Type().Underlying().(*types.Interface); ok {
+					for i := 0; i < it.NumMethods(); i++ {
+						oi.iface[it.Method(i).Name()] = true
+					}
+				}
+			}
+		}
+		for _, f := range allFuncs(p) {
+			if isTestFile(w, f.Pos()) {
+				continue
+			}
+			for _, b := range f.Blocks {
+				for _, in := range b.Instrs {
+					for _, op := range in.Operands(nil) {
+						if g, ok := (*op).(*ssa.Function); ok && g != nil {
+							if oi.refs[g] == nil {
+								oi.refs[g] = map[*ssa.Function]bool{}
+							}
+							oi.refs[g][f] = true
+						}
+					}
+				}
+			}
+		}
+	}
+	w.ownerIdx = oi
+	return oi
+}
+
+// OwnerOf returns the function a piece of code is attributed to.
+func (w *World) OwnerOf(f *ssa.Function) *ssa.Function {
+	oi := w.owners()
+	return oi.owner(f, 0)
+}
+
+func (oi *ownerIndex) owner(f *ssa.Function, d int) *ssa.Function {
+	for f.Parent() != nil {
+		f = f.Parent()
+	}
+	if o, ok := oi.owners[f]; ok {
+		return o
+	}
+	oi.owners[f] = f // cycles end here
+	res := f
+	exported := f.Object() != nil && f.Object().Exported()
+	isIfaceMethod := f.Signature.Recv() != nil && oi.iface[f.Name()]
+	if d < 4 && !exported && !isIfaceMethod && f.Name() != "init" && f.Name() != "main" {
+		var only *ssa.Function
+		n := 0
+		for g := range oi.refs[f] {
+			o := oi.owner(g, d+1)
+			if o == f {
+				continue // recursion
+			}
+			if only == nil || only != o {
+				n++
+				only = o
+			}
+		}
+		if n == 1 {
+			res = only
+		}
+	}
+	oi.owners[f] = res
+	return res
+}
+
+// pcValuesWhen: the values integer subject subj can have when f holds (the
+// union, over the feasible assignments satisfying f, of what the tests on
+// subj allow).  ok=false when f is not decided.
+func pcValuesWhen(f *pcF, subj string) (ISet, bool) {
+	as := f.atoms()
+	if len(as) > 16 {
+		return nil, false
+	}
+	var out ISet
+	for m := 0; m < 1<<len(as); m++ {
+		env := map[string]bool{}
+		for i, a := range as {
+			env[a.key] = m&(1<<i) != 0
+		}
+		if !pcFeasible(as, env) || !f.eval(env, map[*pcF]bool{}) {
+			continue
+		}
+		cur := fullISet
+		for _, a := range as {
+			if a.subj != subj {
+				continue
+			}
+			s := a.set
+			if !env[a.key] {
+				s = s.complement()
+			}
+			cur = cur.intersect(s)
+		}
+		out = out.union(cur)
+	}
+	return out, true
 }
